@@ -30,6 +30,7 @@ RULE = (
     "of different length are split across chunks)."
 )
 ASSUMPTIONS = [
+    "the responder may attach a handshake payload of any length (Noise allows it; the client must ignore it) and the configured key text may carry the white space / line ends legal in base64 text, which the decoder in use ignores",
     "responder = stock noiseprotocol handshake with the default backend + cryptography AEAD under explicit nonces",
     "server names are valid UTF-8 without NUL (the hello format cannot carry anything else)",
     "X25519 ephemerals of both sides come from a counter-based generator (third-party boundary) so a case is reproducible",
@@ -50,11 +51,18 @@ def accept_name(announced: str | None, expected: str | None) -> bool:
     return expected is None or announced is None or announced == expected
 
 
+def key_text(key: bytes, fmt: int) -> str:
+    """The configured key text: base64 of the key, optionally with the white space / line ends that base64 text
+    legally carries (RFC 2045) and that the decoder in use ignores -- the key is the same 32 bytes."""
+    t = base64.b64encode(key).decode()
+    return [t, t + "\n", t + "\r\n", " " + t, t[:20] + "\n" + t[20:], t + " "][fmt % 6]
+
+
 def build_server_stream(case: dict, first_write: bytes):
     key = bytes.fromhex(case["key"])
     hello_body, hs_body = noise_ref.split_client_hello(first_write)
     r = noise_ref.Responder(key)
-    answer = r.accept_client_handshake(hs_body)
+    answer = r.accept_client_handshake(hs_body, bytes(range(int(case.get("hs_payload", 0)))))
     name = case.get("server_name")
     parts = [wire.enc_noise_outer(noise_ref.server_hello(None if name is None else name.encode()))]
     parts.append(wire.enc_noise_outer(answer))
@@ -75,7 +83,7 @@ def run_case(case: dict) -> CaseResult:
     res = CaseResult()
     key = bytes.fromhex(case["key"])
     expected = case.get("expected")
-    h, conn, tr = fstub.make_noise(base64.b64encode(key).decode(), expected, eph=int(case.get("eph", 0)))
+    h, conn, tr = fstub.make_noise(key_text(key, int(case.get("key_fmt", 0))), expected, eph=int(case.get("eph", 0)))
     if len(tr.writes) != 1:
         res.violations.append(Violation(ID, "c03:client-hello-not-one-write", f"{len(tr.writes)} writes in connection_made"))
         return res
@@ -155,6 +163,10 @@ def run_case(case: dict) -> CaseResult:
     for idx in range(len(ends) - 1):
         if any(starts[idx] + 3 <= c < ends[idx] for c in cuts) and sizes[idx + 1] < sizes[idx]:
             classes.add("split_then_shorter_frame")
+    if case.get("hs_payload"):
+        classes.add("handshake_payload")
+    if case.get("key_fmt"):
+        classes.add("key_text_with_whitespace")
     if not ok_name:
         classes.add("name_rejected")
     elif expected is not None and name is not None:
@@ -183,6 +195,7 @@ def run_api(case: dict) -> CaseResult:
     expected = case.get("expected")
     dev.noise_name = None if name is None else name.encode()
     dev.name = case.get("api_name", "dev")
+    dev.noise_hs_payload = bytes(range(int(case.get("hs_payload", 0))))
     marks = {}
 
     def hook(sess, answer):
@@ -195,7 +208,7 @@ def run_api(case: dict) -> CaseResult:
         sess.send_raw(data + extra, cuts=case.get("cuts"))
 
     dev.noise_handshake_hook = hook
-    cli = make_client(env, noise_psk=base64.b64encode(KEY).decode(), expected_name=expected)
+    cli = make_client(env, noise_psk=key_text(KEY, int(case.get("key_fmt", 0))), expected_name=expected)
     got = []
 
     sent_expect: list = []
@@ -267,6 +280,8 @@ def _case(draw, tier):
             "expected": draw(st.sampled_from([None, None, "dev", "kitchen"])),
             "cuts": draw(st.lists(st.integers(0, 70), max_size=4)),
             "msgs": [],
+            "hs_payload": draw(st.sampled_from([0, 0, 0, 1, 16, 200])),
+            "key_fmt": draw(st.sampled_from([0, 0, 0, 1, 2, 3, 4, 5])),
             "send_sizes": draw(st.lists(st.one_of(st.integers(0, 600), st.sampled_from([230, 233, 236, 250, 252, 255, 256, 488, 492, 508, 1000, 4090, 16000])), max_size=5)),
         }
     key = draw(st.one_of(st.binary(min_size=32, max_size=32), st.sampled_from([bytes(32), b"\xff" * 32, bytes(range(32))])))
@@ -292,7 +307,8 @@ def _case(draw, tier):
     # layout: hello frame = 3+1+len(name)+1, handshake = 3+49
     nlen = 0 if name is None else len(name.encode()) + 1
     hello_end = 3 + 1 + nlen
-    hs_end = hello_end + 3 + 49
+    hsp = draw(st.one_of(st.just(0), st.just(0), st.integers(0, 40), st.sampled_from([1, 16, 32, 48, 255])))
+    hs_end = hello_end + 3 + 49 + hsp
     offs = [hs_end]
     for _t, spec in msgs:
         offs.append(offs[-1] + 3 + 4 + len(gen.payload_bytes(spec)) + 16)
@@ -309,6 +325,8 @@ def _case(draw, tier):
         "msgs": msgs,
         "cuts": cuts,
         "kinds": draw(gen.chunk_kinds()),
+        "hs_payload": hsp,
+        "key_fmt": draw(st.sampled_from([0, 0, 0, 0, 1, 2, 3, 4, 5])),
     }
 
 
@@ -332,6 +350,13 @@ def enumerated(tier):
         yield {"key": key, "eph": 2, "server_name": "dev", "expected": "dev", "msgs": msgs, "cuts": [c], "kinds": [c % 4, (c + 1) % 4]}
         if c % 3 == 0:
             yield {"key": key, "eph": 2, "server_name": "dev", "expected": None, "msgs": msgs, "cuts": [c, min(total, c + 5)], "kinds": [0, 1, 2]}
+    for hsp in (1, 2, 16, 48, 100):
+        for fmt in range(6):
+            tot = 8 + 52 + hsp + sum(23 + len(gen.payload_bytes(s)) for _t, s in msgs)
+            for cuts in ([], [8 + 52 + hsp], [8 + 52], list(range(1, tot, 3))):
+                yield {"key": key, "eph": 3, "server_name": "dev", "expected": "dev", "msgs": msgs, "cuts": cuts, "kinds": [fmt % 4], "hs_payload": hsp, "key_fmt": fmt}
+    for fmt in range(6):
+        yield {"mode": "api", "server_name": "dev", "expected": "dev", "cuts": [], "msgs": [], "key_fmt": fmt, "hs_payload": (0, 7)[fmt % 2]}
     for name in NAMES:
         for exp in (None, "dev", "kitchen"):
             for cuts in ([], [2], [5, 9], [30], [57, 58]):
